@@ -387,6 +387,26 @@ def build(desc, seed, timeout):
     orig_run = build_system.BuildSystem.run_system
     orig_sdr = restraints.set_distance_restraint
     orig_gen = persistence.generate_end_end_distances
+    orig_sample = build_system.sample_end_to_end_distances
+
+    def sample(topology, nonbond_matrix, *args, **kwargs):
+        try:
+            return orig_sample(topology, nonbond_matrix, *args, **kwargs)
+        finally:
+            # the stretch every sampled distance belongs to, measured independently of the code under test:
+            # the path start..stop in the residue graph of the molecule itself, pair sizes from the engine
+            import networkx as nx
+            for rec in cap["ee"]:
+                own = []
+                for mol_idx in rec["mol_idxs"]:
+                    try:
+                        path = nx.shortest_path(topology.molecules[mol_idx], rec["start"], rec["stop"])
+                        sizes = [float(nonbond_matrix.get_interaction(mol_idx, mol_idx, u, v)[0])
+                                 for u, v in zip(path[:-1], path[1:])]
+                        own.append([sum(sizes) / len(sizes), sum(sizes)])
+                    except Exception:  # pylint: disable=broad-except
+                        own.append(None)
+                rec["own"] = own
 
     def run_system(self, molecules):
         out = orig_run(self, molecules)
@@ -417,6 +437,7 @@ def build(desc, seed, timeout):
     restraints.set_distance_restraint = sdr
     persistence.set_distance_restraint = sdr
     persistence.generate_end_end_distances = gen
+    build_system.sample_end_to_end_distances = sample
     np.random.seed(seed)
     random.seed(seed)
     old_handler = signal.signal(signal.SIGALRM, _alarm)
@@ -438,6 +459,7 @@ def build(desc, seed, timeout):
         restraints.set_distance_restraint = orig_sdr
         persistence.set_distance_restraint = orig_sdr
         persistence.generate_end_end_distances = orig_gen
+        build_system.sample_end_to_end_distances = orig_sample
         for name in os.listdir(tmp):
             os.remove(os.path.join(tmp, name))
         os.rmdir(tmp)
@@ -555,21 +577,10 @@ def oracle_requests(desc, cap):
             adj = [[int(v), [int(w) for w in mol.neighbors(v)]] for v in mol.nodes]
             reqs.append(dict(op="spec_ring", adj=adj, tree=[list(e) for e in trees[mol_idx]]))
             judges.append(("ring", mol_idx))
+    ee_reqs, ee_judges = ee_requests(cap)
+    reqs += ee_reqs
+    judges += ee_judges
     for rec in cap["ee"]:
-        reqs.append(dict(op="spec_ee", avg=rat_str(rec["avg"]), contour=rat_str(rec["contour"]),
-                         xs=[rat_str(x) for x in rec["samples"]]))
-
-        def judge(ans, rec=rec):
-            for x, ok in zip(rec["samples"], ans["each"]):
-                k = x / rec["avg"]
-                if not ok and not (abs(x - rec["avg"]) < 1e-9 * rec["avg"]):
-                    return ("ee-out-of-range", "sampled end-to-end distance %r not in [%r, %r)"
-                            % (x, rec["avg"], rec["contour"]))
-                if abs(k - round(k)) > 1e-6 or round(k) < 1:
-                    return ("ee-off-grid", "sampled end-to-end distance %r is not a multiple of the step %r"
-                            % (x, rec["avg"]))
-            return None
-        judges.append(judge)
         for mol_idx, dist in zip(rec["mol_idxs"], rec["samples"]):
             if mol_idx >= len(cap["pos"]):
                 continue
@@ -581,6 +592,31 @@ def oracle_requests(desc, cap):
             window(mol_idx, rec["start"], rec["stop"], dist, 0.0, avg, "persistence-window",
                    "sampled end-to-end distance %.4f" % dist)
     return reqs, judges, crossing
+
+
+def ee_requests(cap):
+    """every sampled end-to-end distance against one step and the contour length of ITS OWN stretch"""
+    reqs, judges = [], []
+    for rec in cap["ee"]:
+        for mol_idx, x, own in zip(rec["mol_idxs"], rec["samples"], rec.get("own") or []):
+            if own is None:
+                continue
+            avg, contour = own
+            reqs.append(dict(op="spec_ee", avg=rat_str(avg), contour=rat_str(contour), xs=[rat_str(x)]))
+
+            def judge(ans, rec=rec, mol_idx=mol_idx, x=x, avg=avg, contour=contour):
+                k = x / avg
+                if not ans["each"][0] and not abs(x - avg) < 1e-9 * avg:
+                    return ("ee-out-of-range", "molecule %d, stretch %d..%d: sampled end-to-end distance %.4f is not in "
+                            "[one step %.4f, contour length %.4f) of that stretch (the code sampled with step %.4f, "
+                            "contour %.4f)" % (mol_idx, rec["start"], rec["stop"], x, avg, contour, rec["avg"],
+                                               rec["contour"]))
+                if abs(k - round(k)) > 1e-6 or round(k) < 1:
+                    return ("ee-off-grid", "molecule %d, stretch %d..%d: sampled end-to-end distance %r is not a "
+                            "multiple of the step %r of that stretch" % (mol_idx, rec["start"], rec["stop"], x, avg))
+                return None
+            judges.append(judge)
+    return reqs, judges
 
 
 def tree_path(tree, start, stop):
@@ -662,14 +698,42 @@ def gen_system(rng, flavour, thorough):
     if flavour == "persist":
         n = rng.choice([rng.randint(4, 12), rng.randint(4, 40 if thorough else 20)])
         mt = chain_type(rng, "A", n)
-        count = rng.choice([1, 2, 3])
-        box = float(max(8, int(n * STEP * 0.9) + 4))
-        start, stop = (0, n - 1) if rng.random() < 0.7 else (rng.randint(0, 1), n - 1 - rng.randint(0, 1))
-        if stop - start < 2:
-            start, stop = 0, n - 1
-        desc.update(moltypes=[mt], molecules=[("A", count)], box=[box] * 3,
-                    build=[dict(mol="A", frm=0, to=count,
-                                items=[dict(kind="persist", lp=rng.choice([0.5, 1.0, 2.0, 4.0]), start=start, stop=stop)])])
+        types, molecules = [mt], []
+        count = rng.choice([1, 2, 3, 4])
+        molecules.append(("A", count))
+        if rng.random() < 0.4:
+            # a second molecule type with the SAME residue names and another length
+            other = chain_type(rng, "A", rng.randint(4, 12))
+            other["name"] = "B"
+            types.append(other)
+            molecules.append(("B", rng.choice([1, 2])))
+        box = float(max(8, int(max(len(t["resnames"]) for t in types) * STEP * 0.9) + 4))
+
+        def stretch(length):
+            roll = rng.random()
+            if roll < 0.5 or length < 5:
+                return 0, length - 1
+            if roll < 0.9:
+                return 0, rng.randint(2, length - 2)         # a shorter stretch from the first residue
+            return rng.randint(0, 1), length - 1 - rng.randint(0, 1)
+
+        blocks, first = [], 0
+        for name, cnt in molecules:
+            length = len(next(t for t in types if t["name"] == name)["resnames"])
+            # the instances of one type are split into one or two batches with their own stretches
+            cut = rng.randint(1, cnt - 1) if cnt >= 2 and rng.random() < 0.6 else cnt
+            for frm, to in [(first, first + cut), (first + cut, first + cnt)]:
+                if frm == to:
+                    continue
+                start, stop = stretch(length)
+                if stop - start < 2:
+                    start, stop = 0, length - 1
+                blocks.append(dict(mol=name, frm=frm, to=to,
+                                   items=[dict(kind="persist", lp=rng.choice([0.5, 1.0, 2.0, 4.0]),
+                                               start=start, stop=stop)]))
+            first += cnt
+        rng.shuffle(blocks)
+        desc.update(moltypes=types, molecules=molecules, box=[box] * 3, build=blocks)
         desc["options"] = dict(grid_spacing=1.0 if box > 10 else 0.5)
         return desc
     n = rng.randint(2, 10)
@@ -840,6 +904,11 @@ def run_e2e(ctx, cases, timeout=None):
             ctx.case(None, flavour=case["flavour"], build=status)
             if status.startswith("error") and not cap.get("error", "").startswith("Sampling the end-to-end"):
                 ctx.tally(build_error=cap.get("error", "")[:80])
+            # the build did not finish (no residue positions to judge), the sampled distances are still judged
+            rq, judges = ee_requests(cap)
+            if rq:
+                done.append((case, cap, len(reqs), len(rq), judges, None, 0))
+                reqs += rq
             continue
         rq, judges, crossing = oracle_requests(desc, cap)
         # correspondence inside the build: the tree and the stored restraints of every molecule
@@ -888,6 +957,8 @@ def run_e2e(ctx, cases, timeout=None):
             checked += 1
             if verdict is not None:
                 ctx.oracle_fail(verdict[0], verdict[1], case)
+        if extra is None:
+            continue
         tail = ans[len(judges):]
         for i, item in enumerate(extra):
             impl_tree, impl_set, mol_idx = item[0], item[1], item[2]
